@@ -1,7 +1,7 @@
 (* C20 — "the item found ... holds ... a known antibiotic resistance": find_resistance over the
    definition regenerated from registry/_utils.py (Gen/Src.v, with the _ANTIBIOTICS dict literal
    regenerated as well), and over every record of the five embedded archives. Statements only. *)
-From MV Require Import Base Py PyObj SrcEquivResistance.
+From MV Require Import Base Py PyObj SrcEquivRegistry SrcEquivResistance.
 From MV.Gen Require Import Registries Src.
 From Coq Require Import String List.
 Import ListNotations.
@@ -36,6 +36,21 @@ Theorem C20_src_resistance_none : forall r,
   Forall (fun g => cassettes_of g = []) (lr_features r) -> find_resistance_src r = Err XRuntimeError.
 Proof. exact find_resistance_none. Qed.
 Print Assumptions C20_src_resistance_none.
+
+(* hence the clause of the property: the item an embedded registry (whose members load) or a directory
+   registry returns for a key — __getitem__ as regenerated from base.py, calling find_resistance as
+   regenerated from _utils.py — carries an antibiotic of the table *)
+Theorem C20_src_embedded_item_resistance : forall self k it, Forall loadable (emb_archive self) ->
+  EmbeddedRegistry_getitem self k = Ok it ->
+  exists a, ib_resistance (item_body it) = Some a /\ In a (map snd _ANTIBIOTICS_).
+Proof. exact embedded_item_resistance. Qed.
+Print Assumptions C20_src_embedded_item_resistance.
+
+Theorem C20_src_filesystem_item_resistance : forall self k it,
+  FilesystemRegistry_getitem self k = Ok it ->
+  exists a, ib_resistance (item_body it) = Some a /\ In a (map snd _ANTIBIOTICS_).
+Proof. exact filesystem_item_resistance. Qed.
+Print Assumptions C20_src_filesystem_item_resistance.
 
 (* EVERY record of the five embedded archives (Gen/Registries.v, rebuilt from the working tree: id,
    /label values per feature, and what the implementation's find_resistance reported): the regenerated
